@@ -466,6 +466,179 @@ def inline_new_helpers(fns_by_path, pinned, max_inlines=60, max_callee_blocks=40
     return done
 
 
+# ----------------------------------------------------------------------------------------
+# Closures with side effects handed to a standard combinator are written out.  `opt.unwrap_or_else(|| { v.push(x); v.len() - 1 })`
+# and `res.map_err(|e| { self.reset(); e })` are control flow in disguise: the closure's body runs on one side of a test of the
+# Option / Result.  The MIR of such a call is rewritten into that test, with the closure's body spliced into its side, so that
+# dominators, path enumeration, the panic census and the field-write rules see the pushes and resets where they happen.  Closures
+# without side effects (a comparison, the construction of an error value) are left alone: they are values to the rules.
+# ----------------------------------------------------------------------------------------
+_COMB = {
+    # callee suffix: (enum, variant on which the closure runs, how its result becomes the result of the call)
+    'option::Option::<T>::unwrap_or_else': ('core::option::Option', 'None', 'value'),
+    'option::Option::<T>::or_else': ('core::option::Option', 'None', 'same'),
+    'option::Option::<T>::ok_or_else': ('core::option::Option', 'None', 'Err'),
+    'option::Option::<T>::map': ('core::option::Option', 'Some', 'Some'),
+    'option::Option::<T>::and_then': ('core::option::Option', 'Some', 'same'),
+    'result::Result::<T, E>::map_err': ('core::result::Result', 'Err', 'Err'),
+    'result::Result::<T, E>::map': ('core::result::Result', 'Ok', 'Ok'),
+    'result::Result::<T, E>::and_then': ('core::result::Result', 'Ok', 'same'),
+    'result::Result::<T, E>::or_else': ('core::result::Result', 'Err', 'same'),
+    'result::Result::<T, E>::unwrap_or_else': ('core::result::Result', 'Err', 'value'),
+}
+_VARIANTS = {'core::option::Option': ['None', 'Some'], 'core::result::Result': ['Ok', 'Err']}
+
+
+def _closure_has_effects(cj):
+    for bl in cj['blocks']:
+        for st in bl['stmts']:
+            if st['k'] == 'assign' and any(e == 'deref' for e in st['place']['proj']):
+                return True
+        t = bl['term']
+        if t['k'] == 'call':
+            for a in t['args']:
+                pl = a.get('place') if a.get('k') in ('copy', 'move') else None
+                if pl is not None:
+                    ty = cj['locals'][pl['local']]['ty'] if pl['local'] < len(cj['locals']) else ''
+                    if ty.startswith('&') and ' mut ' in ty[:24] and not pl['proj']:
+                        return True
+    return False
+
+
+def desugar_effect_closures(fns_by_path, max_rewrites=40):
+    """returns {caller: [closure paths spliced]}"""
+    done = {}
+    originals = {}
+    for path, j in list(fns_by_path.items()):
+        n = 0
+        bi = 0
+        while bi < len(j['blocks']) and n < max_rewrites:
+            bl = j['blocks'][bi]
+            t = bl['term']
+            bi += 1
+            if t['k'] != 'call' or len(t['args']) != 2 or t.get('target') is None:
+                continue
+            name = t['callee'].get('resolved') or t['callee'].get('path') or ''
+            spec = next((v for k, v in _COMB.items() if name.endswith(k)), None)
+            if spec is None:
+                continue
+            enum, on_variant, wrap = spec
+            ca = t['args'][1]
+            cl = ca.get('place', {}).get('local') if ca.get('k') in ('copy', 'move') and not ca['place']['proj'] else None
+            if cl is None:
+                continue
+            # the closure value: the single aggregate that defines the local (through plain moves)
+            cp = None
+            cur = cl
+            for _ in range(6):
+                defs = [st for b2 in j['blocks'] for st in b2['stmts'] if st['k'] == 'assign' and st['place']['local'] == cur and not st['place']['proj']]
+                if len(defs) != 1:
+                    break
+                rv = defs[0]['rv']
+                if rv['k'] == 'aggregate' and rv.get('closure'):
+                    cp = rv['closure']
+                    break
+                if rv['k'] == 'use' and rv['op'].get('k') in ('copy', 'move') and not rv['op']['place']['proj']:
+                    cur = rv['op']['place']['local']
+                    continue
+                break
+            if cp is None or cp not in fns_by_path or cp in bl.get('inl', ()):
+                continue
+            cj = originals.setdefault(cp, copy.deepcopy(fns_by_path[cp]))
+            if not _closure_has_effects(cj) or len(cj['blocks']) > 200:
+                continue
+            o = t['args'][0]
+            if o.get('k') not in ('copy', 'move') or o['place']['proj']:
+                continue
+            ol = o['place']['local']
+            oty = o['place'].get('ty') or j['locals'][ol]['ty']
+            vidx = _VARIANTS[enum].index(on_variant)
+            other = _VARIANTS[enum][1 - vidx]
+            span = t['span']
+            loff, boff, poff = len(j['locals']), len(j['blocks']) + 3, len(j.get('promoted') or [])
+            stack = tuple(bl.get('inl', ())) + (cp,)
+
+            def newlocal(ty):
+                j['locals'].append({'i': len(j['locals']), 'ty': ty, 'name': None, 'inl': cp})
+                return len(j['locals']) - 1
+
+            def pl(l, proj=(), ty=None):
+                return {'local': l, 'proj': list(proj), 'ty': ty or j['locals'][l]['ty'], 'text': '_%d' % l}
+            # the closure's own locals first (so that loff is where they start)
+            for l in cj['locals']:
+                l2 = dict(l)
+                l2['i'] = l['i'] + loff
+                l2['inl'] = cp
+                j['locals'].append(l2)
+            disc = newlocal('isize')
+            ret_ty = cj['locals'][0]['ty']
+            b_pass, b_call, b_fin = len(j['blocks']), len(j['blocks']) + 1, len(j['blocks']) + 2
+
+            def payload(variant, ty=None):
+                vi = _VARIANTS[enum].index(variant)
+                return {'k': 'move', 'place': pl(ol, [{'downcast': variant, 'vidx': vi}, {'field': 0, 'name': '0', 'of': enum, 'ty': ty or '?'}], ty or '?')}
+
+            def agg(variant, ops):
+                return {'k': 'aggregate', 'adt': enum, 'variant': variant, 'fields': [], 'ops': ops}
+            dest = t['dest']
+            # the side on which the closure does not run
+            if wrap == 'value':
+                pass_rv = {'k': 'use', 'op': payload(other, dest.get('ty'))}
+            elif wrap == 'same' and enum.endswith('Option') and on_variant == 'None':
+                pass_rv = {'k': 'use', 'op': {'k': 'move', 'place': pl(ol)}}
+            elif wrap == 'same' and on_variant in ('Some',):
+                pass_rv = agg('None', [])
+            elif wrap == 'same':          # Result::and_then on Err / or_else on Ok: the other variant is rebuilt unchanged
+                pass_rv = agg(other, [payload(other)])
+            elif wrap == 'Err' and enum.endswith('Option'):      # ok_or_else: Some(x) -> Ok(x)
+                pass_rv = {'k': 'aggregate', 'adt': 'core::result::Result', 'variant': 'Ok', 'fields': [], 'ops': [payload('Some')]}
+            elif wrap == 'Some':
+                pass_rv = agg('None', [])
+            else:                          # map_err on Ok / map on Err
+                pass_rv = agg(other, [payload(other)])
+            j['blocks'].append({'i': b_pass, 'stmts': [{'k': 'assign', 'place': dest, 'rv': pass_rv, 'span': span}], 'term': {'k': 'goto', 'target': t['target']}, 'inl': stack, 'cleanup': False})
+            # the side on which it runs: bind the closure and its argument, enter the spliced body
+            call_stmts = []
+            c1ty = cj['locals'][1]['ty']
+            if c1ty.startswith('&'):
+                call_stmts.append({'k': 'assign', 'place': pl(loff + 1, ty=c1ty), 'rv': {'k': 'ref', 'mut': ' mut ' in c1ty[:24], 'place': pl(cl)}, 'span': span, 'inl_arg': cp})
+            else:
+                call_stmts.append({'k': 'assign', 'place': pl(loff + 1, ty=c1ty), 'rv': {'k': 'use', 'op': {'k': 'move', 'place': pl(cl)}}, 'span': span, 'inl_arg': cp})
+            if cj['arg_count'] >= 2:
+                call_stmts.append({'k': 'assign', 'place': pl(loff + 2, ty=cj['locals'][2]['ty']), 'rv': {'k': 'use', 'op': payload(on_variant, cj['locals'][2]['ty'])}, 'span': span, 'inl_arg': cp})
+            j['blocks'].append({'i': b_call, 'stmts': call_stmts, 'term': {'k': 'goto', 'target': boff, 'inl_call': cp, 'span': span}, 'inl': stack, 'cleanup': False})
+            # what the closure returned becomes the result
+            r_op = {'k': 'move', 'place': pl(loff, ty=ret_ty)}
+            if wrap in ('value', 'same'):
+                fin_rv = {'k': 'use', 'op': r_op}
+            elif wrap == 'Err' and enum.endswith('Option'):
+                fin_rv = {'k': 'aggregate', 'adt': 'core::result::Result', 'variant': 'Err', 'fields': [], 'ops': [r_op]}
+            else:
+                fin_rv = agg(wrap, [r_op])
+            j['blocks'].append({'i': b_fin, 'stmts': [{'k': 'assign', 'place': dest, 'rv': fin_rv, 'span': span, 'inl_ret': cp}], 'term': {'k': 'goto', 'target': t['target']}, 'inl': stack, 'cleanup': False})
+            for pr in cj.get('promoted') or []:
+                pr2 = copy.deepcopy(pr)
+                pr2['i'] = pr['i'] + poff
+                j.setdefault('promoted', []).append(pr2)
+            for cb in cj['blocks']:
+                nb = _remap(cb, loff, boff, poff)
+                nb['i'] = cb['i'] + boff
+                nb['inl'] = stack
+                tt = nb['term']
+                if tt['k'] == 'return':
+                    nb['term'] = {'k': 'goto', 'target': b_fin}
+                elif tt['k'] == 'resume':
+                    nb['term'] = {'k': 'goto', 'target': t['unwind']} if isinstance(t.get('unwind'), int) else {'k': 'unreachable'}
+                j['blocks'].append(nb)
+            # the call becomes the test
+            bl['stmts'].append({'k': 'assign', 'place': pl(disc), 'rv': {'k': 'discr', 'place': pl(ol), 'enum': enum}, 'span': span})
+            tg = [[vidx, b_call], [1 - vidx, b_pass]]
+            bl['term'] = {'k': 'switch', 'op': {'k': 'move', 'place': pl(disc)}, 'ty': 'isize', 'targets': sorted(tg), 'otherwise': b_pass, 'span': span, 'desugared': name}
+            n += 1
+            done.setdefault(path, []).append(cp)
+    return done
+
+
 _LIFETIME = re.compile(r"'[^ ,>)]+ ?")
 
 
@@ -551,6 +724,9 @@ class Facts:
                 for fj in d['fns']:
                     byp.setdefault(fj['path'], fj)
                 done = inline_new_helpers(byp, set(pinned[crate]))
+                done2 = desugar_effect_closures(byp)
+                for k_, v_ in done2.items():
+                    done.setdefault(k_, []).extend(v_)
                 for k_, v_ in done.items():
                     self.inlined[(crate, k_)] = v_
                 gone = {h for v_ in done.values() for h in v_}
